@@ -29,7 +29,7 @@ def seeds():
     r = json.load(open(f'{V}/seeded/results.json'))
     out = ['| seed | what the change is (from its meta.json) | first run of the checks | final | how it is caught / what was strengthened |', '|---|---|---|---|---|']
     def key(k):
-        a, b = k.split('-'); return (int(a[1:]), int(b))
+        parts = k.split('-'); return (int(parts[0][1:]), 2 if 'r2' in parts else 1, int(parts[-1]))
     n = dict(caught=0, missed_then_caught=0, other=0)
     for k in sorted(r, key=key):
         v = r[k]
